@@ -40,6 +40,8 @@ MUTS={
  'M23_void_text':[('wr','HE4 1E-30','HE4 1e-30')],
  'M25_name_abs_density':[('wr',"p_material_name = mat.material + '_' + density","p_material_name = mat.material + '_' + str_fabs(density)")],
  'M29_dedup_by_value':[('cons',"            if density in densities:\n                continue\n            densities.add(density)\n","            if float(normalize_float(density)) in densities:\n                continue\n            densities.add(float(normalize_float(density)))\n")],
+ 'M30_duplicate_keeps_first':[('mip',"            mat_dict[name] = params\n","            mat_dict.setdefault(name, params)\n")],
+ 'M31_duplicate_moves_to_end':[('mip',"            mat_dict[name] = params\n","            mat_dict.pop(name, None)\n            mat_dict[name] = params\n")],
  # behaviour-preserving rewrites
  'R1_int_mass_zero':[('conv',"if mass_number == '0':","if int(mass_number) == 0:")],
  'R2_pairs_iterator':[('ccomp',"""        i = 0
